@@ -265,13 +265,14 @@ func init() {
 			enumV3Temporal(r, P, nil, decs, v3EnvSuffixes()[13:13+nsfx])
 			enumV3EnvProduct(r, P, nil, every)
 			omittedTemporal(r, P, nil)
+			xVersusOmitted(r)
 			enumV2Temporal(r, P, nil, []int{0, 1, 2}, []map[string]string{{}, {"CDP": "LM", "TD": "M", "CR": "H", "IR": "L", "AR": "ND"}})
 			dpathSliceV2(r, P, nil, func(gi int) bool { return gi%480 == 1 || (thorough && gi%8 == 1) })
 		})
 		finishGraphStats(r, gs)
 		r.Add("evaluations", r.Get("v3_environmental_product_vectors"))
 		r.Set("order_dependence_events", atomic.LoadInt64(&gs.orderEvents))
-		r.Set("rule", "at every accepting transition of the decoder graphs (see C07/C08), for every string of the permutation sets and for every vector of the ENUM D-paths: each exported field equals the library constant the harness associates with the written code (and prints that code), unwritten optional metrics are Not Defined (v3) / their group IsEmpty (v2), Ver matches the prefix; all paths reaching one token set give identical observables; explicit X equals omission")
+		r.Set("rule", "at every accepting transition of the decoder graphs (see C07/C08), for every string of the permutation sets and for every vector of the ENUM D-paths: each exported field equals the library constant the harness associates with the written code (and prints that code), unwritten optional metrics are Not Defined (v3) / their group IsEmpty (v2), Ver matches the prefix; all paths reaching one token set give identical observables; explicit X equals omission (all omitted metrics at once on every vector, and one metric at a time for every base vector in five contexts)")
 		setExhaustiveUnlessCapped(r)
 		graphAssumptions(r)
 		r.Assume("code -> library constant table written by hand from the constants' names (mc/internal/lib/enums.go), independent of the library's code maps")
